@@ -138,6 +138,11 @@ fn real_main(mut args: Vec<String>) -> i32 {
                         let (b, h) = autoplay.unwrap_or((1, 620));
                         props::c15::autoplay_worker(b, h)
                     }
+                    "C19" => {
+                        let mut a = explore::Acc::new();
+                        a.notes.push(props::c19::fresh_digest(&tier));
+                        a
+                    }
                     _ => {
                         out!("MACHINERY-ERROR: no worker mode for {}", prop);
                         return 2;
@@ -168,6 +173,7 @@ fn real_main(mut args: Vec<String>) -> i32 {
                 "C14" => props::c14::run(&tier, seed),
                 "C13" => props::c13::run(&tier, seed),
                 "C15" => props::c15::run(&tier, seed),
+                "C19" => props::c19::run(&tier, seed),
                 _ => {
                     out!("MACHINERY-ERROR: unknown property {}", prop);
                     return 2;
@@ -211,9 +217,11 @@ fn replay(path: &str, worker: bool) -> i32 {
             "c07-stop" => props::c07::replay(r),
             "c09-root" => props::c09::replay(r),
             "c10-root" => props::c10::replay(r),
+            "e5-schedule" if prop == "C19" => props::c19::replay(r),
             "e5-schedule" => props::c14::replay(r, &props::c14::oracle),
             "c13-case" => props::c13::replay(r),
             "c15-mobility" | "c15-stack" | "c15-autoplay" => props::c15::replay(r),
+            "c19-history" | "c19-process" => props::c19::replay(r),
             _ => Err(format!("unknown replay kind {:?}", kind)),
         }
     };
